@@ -541,7 +541,9 @@ func (w *world) end(s *vsched.Sched, r *vsched.Result) (string, string) {
 					return v, outcome
 				}
 			}
-			if pr.Elapsed != pr.Clock-w.began {
+			// (the start of a second attack is only known to lie at or after the moment its thread called
+			// Attack: other threads may read - and thereby advance - the ticking clock in between)
+			if (w.parent == nil && pr.Elapsed != pr.Clock-w.began) || (w.parent != nil && pr.Elapsed > pr.Clock-w.began) {
 				if v := fmt.Sprintf("C04: Pace call %d got elapsed=%d but %d had elapsed since the start", i, pr.Elapsed, pr.Clock-w.began); w.own(v) {
 					return v, outcome
 				}
@@ -977,6 +979,14 @@ func c04Plans() []plan {
 	for du := time.Duration(1); du <= 14; du++ {
 		p := params{W0: 1, M: 1, N: 3, Cause: "duration", Du: du, Mode: vsched.ClockTicking}
 		ps = append(ps, plan{p, vsched.Config{Bound: ev.Pick(1, 2), Cache: true, Deadline: dl, Iterate: true}})
+	}
+	// a second (empty) attack started on the same Attacker while the first one runs: each attack's elapsed
+	// time is measured from its own start
+	for _, p := range []params{
+		{W0: 1, M: 1, N: 2, Cause: "pacer", Mode: vsched.ClockTicking, Second: true},
+		{W0: 1, M: 1, N: 3, Cause: "duration", Du: 9, Mode: vsched.ClockTicking, Second: true},
+	} {
+		ps = append(ps, plan{p, vsched.Config{Bound: ev.Pick(2, 3), Cache: true, Deadline: dl, Iterate: true}})
 	}
 	return ps
 }
